@@ -1,1 +1,321 @@
-//! schedule controller (filled in below)
+//! Event log + schedule controller for the three worker-loop shapes (DESIGN.md §2.4).
+//!
+//! The repository's hooks call `ktio::verif::emit(site, args)`.  The closure installed here
+//! (a) appends the event to an append-only log under the controller's own mutex together with a
+//! worker index derived from the OS thread id, and (b) in *controlled* mode parks the caller at the
+//! `took` site until the decision procedure releases it, so that the run is serialised at hook
+//! granularity and the choice at each step is "which held record ordinal is published next".
+
+use refmodel::rng::{mix, Rng};
+use std::collections::HashMap;
+use std::sync::{Arc, Condvar, Mutex};
+use std::thread::ThreadId;
+use std::time::{Duration, Instant};
+
+pub const NONE: u64 = u64::MAX;
+
+/// the controller currently installed as sink (so that a panic anywhere can release parked workers)
+static ACTIVE: Mutex<Option<Arc<Controller>>> = Mutex::new(None);
+
+/// Called from the panic hook: a worker that panics never reaches its exit hook, so the remaining
+/// workers would stay parked until the watchdog; release everybody at once (run = inconclusive for
+/// scheduling purposes, the panic itself is reported by the stage).
+pub fn abort_active() {
+    let ctl = ACTIVE.lock().ok().and_then(|g| g.clone());
+    if let Some(c) = ctl {
+        {
+            let mut g = c.inner.lock().unwrap_or_else(|e| e.into_inner());
+            if matches!(g.mode, Mode::Controlled(_)) {
+                g.aborted = true;
+                g.panicked = true;
+            }
+        }
+        c.cv.notify_all();
+    }
+}
+
+#[derive(Clone, Debug)]
+pub struct Event {
+    pub worker: usize,
+    pub site: &'static str,
+    pub args: [u64; 4],
+}
+
+#[derive(Clone, Debug, PartialEq)]
+pub enum Mode {
+    /// only record events
+    Log,
+    /// serialise at hook granularity; choices from the forced prefix, then policy
+    Controlled(Policy),
+    /// free-running, but sleep a hash-determined 0..max_us at every took/wrote site
+    Perturbed { seed: u64, max_us: u64 },
+}
+
+#[derive(Clone, Debug, PartialEq)]
+pub enum Policy {
+    /// always the first option (lowest held ordinal) beyond the forced prefix: DFS default branch
+    First,
+    /// seeded random choice among the parked workers
+    Random(u64),
+    /// PCT-like: each worker gets a random priority, highest runs; priorities reshuffled at d change points
+    Pct { seed: u64, change_every: u32 },
+}
+
+struct Inner {
+    events: Vec<Event>,
+    workers: HashMap<ThreadId, usize>,
+    mode: Mode,
+    threads: usize,
+    took_site: &'static str,
+    exit_site: &'static str,
+    parked: Vec<(usize, u64)>,
+    exited: usize,
+    released: Option<usize>,
+    /// (number of options, chosen index, chosen ordinal)
+    choices: Vec<(u32, u32, u64)>,
+    prefix: Vec<u32>,
+    diverged: bool,
+    aborted: bool,
+    rng: Rng,
+    prio: HashMap<usize, u64>,
+    rounds_completed: u64,
+    panicked: bool,
+}
+
+pub struct Controller {
+    inner: Mutex<Inner>,
+    cv: Condvar,
+    watchdog: Duration,
+}
+
+pub struct RunTrace {
+    pub events: Vec<Event>,
+    pub choices: Vec<(u32, u32, u64)>,
+    pub diverged: bool,
+    pub aborted: bool,
+    pub workers_seen: usize,
+}
+
+impl Controller {
+    pub fn new(mode: Mode, threads: usize, took_site: &'static str, exit_site: &'static str, prefix: Vec<u32>) -> Arc<Controller> {
+        let seed = match &mode {
+            Mode::Controlled(Policy::Random(s)) => *s,
+            Mode::Controlled(Policy::Pct { seed, .. }) => *seed,
+            Mode::Perturbed { seed, .. } => *seed,
+            _ => 0,
+        };
+        Arc::new(Controller {
+            inner: Mutex::new(Inner {
+                events: Vec::new(),
+                workers: HashMap::new(),
+                mode,
+                threads,
+                took_site,
+                exit_site,
+                parked: Vec::new(),
+                exited: 0,
+                released: None,
+                choices: Vec::new(),
+                prefix,
+                diverged: false,
+                aborted: false,
+                rng: Rng::new(seed ^ 0x5ced),
+                prio: HashMap::new(),
+                rounds_completed: 0,
+                panicked: false,
+            }),
+            cv: Condvar::new(),
+            watchdog: Duration::from_secs(30),
+        })
+    }
+
+    /// Install as the process-global sink.  Only one controller can be active at a time.
+    pub fn install(self: &Arc<Self>) {
+        let me = Arc::clone(self);
+        *ACTIVE.lock().unwrap_or_else(|e| e.into_inner()) = Some(Arc::clone(self));
+        ktio::verif::set_sink(Arc::new(move |site, args| me.on_event(site, args)));
+    }
+
+    pub fn uninstall() {
+        ktio::verif::clear_sink();
+        *ACTIVE.lock().unwrap_or_else(|e| e.into_inner()) = None;
+    }
+
+    pub fn finish(self: &Arc<Self>) -> RunTrace {
+        Controller::uninstall();
+        let mut g = self.inner.lock().unwrap_or_else(|e| e.into_inner());
+        RunTrace {
+            events: std::mem::take(&mut g.events),
+            choices: std::mem::take(&mut g.choices),
+            diverged: g.diverged,
+            aborted: g.aborted && !g.panicked,
+            workers_seen: g.workers.len(),
+        }
+    }
+
+    fn decide(g: &mut Inner) {
+        if g.parked.is_empty() {
+            return;
+        }
+        g.parked.sort_by_key(|p| p.1);
+        let n = g.parked.len() as u32;
+        let step = g.choices.len();
+        let mut c = if step < g.prefix.len() {
+            g.prefix[step]
+        } else {
+            match g.mode.clone() {
+                Mode::Controlled(Policy::First) => 0,
+                Mode::Controlled(Policy::Random(_)) => g.rng.below(n as u64) as u32,
+                Mode::Controlled(Policy::Pct { change_every, .. }) => {
+                    if change_every > 0 && step as u32 % change_every == 0 {
+                        g.prio.clear();
+                    }
+                    let mut best = 0u32;
+                    let mut best_p = 0u64;
+                    for (i, (w, _)) in g.parked.clone().iter().enumerate() {
+                        let fresh = g.rng.next_u64() | 1;
+                        let p = *g.prio.entry(*w).or_insert(fresh);
+                        if p >= best_p {
+                            best_p = p;
+                            best = i as u32;
+                        }
+                    }
+                    best
+                }
+                _ => 0,
+            }
+        };
+        if c >= n {
+            g.diverged = true;
+            c = n - 1;
+        }
+        let (w, ord) = g.parked.remove(c as usize);
+        g.choices.push((n, c, ord));
+        g.released = Some(w);
+    }
+
+    fn on_event(&self, site: &'static str, args: [u64; 4]) {
+        let tid = std::thread::current().id();
+        let mut sleep_us = 0u64;
+        {
+            let mut g = self.inner.lock().unwrap_or_else(|e| e.into_inner());
+            let next = g.workers.len();
+            let w = *g.workers.entry(tid).or_insert(next);
+            g.events.push(Event { worker: w, site, args });
+            // online bounds monitor for the mapped writer: the hook fires *before* the copy, so an
+            // out-of-bounds write is turned into a panic here instead of corrupting memory / SIGSEGV
+            if site == "mm.write" && args[0].checked_add(args[1]).map_or(true, |end| end > args[2]) {
+                drop(g);
+                panic!("VERIF mapped write out of bounds: {} bytes at offset {} in a {}-byte mapping", args[1], args[0], args[2]);
+            }
+            match g.mode.clone() {
+                Mode::Log => {}
+                Mode::Perturbed { seed, max_us } => {
+                    if max_us > 0 && (site == g.took_site || site.ends_with(".wrote")) {
+                        let h = mix(seed ^ mix(w as u64) ^ mix(args[0]).rotate_left(7) ^ mix(g.events.len() as u64));
+                        // about half of the sites do not sleep at all
+                        if h & 1 == 1 {
+                            sleep_us = (h >> 8) % (max_us + 1);
+                        }
+                    }
+                }
+                Mode::Controlled(_) => {
+                    if g.aborted {
+                        return;
+                    }
+                    if site == g.took_site && args[0] != NONE {
+                        g.parked.push((w, args[0]));
+                        if g.parked.len() + g.exited >= g.threads {
+                            Controller::decide(&mut g);
+                            self.cv.notify_all();
+                        }
+                        let deadline = Instant::now() + self.watchdog;
+                        loop {
+                            if g.released == Some(w) {
+                                g.released = None;
+                                break;
+                            }
+                            if g.aborted {
+                                break;
+                            }
+                            let now = Instant::now();
+                            if now >= deadline {
+                                // watchdog: give up on control, let everybody run (run is inconclusive)
+                                g.aborted = true;
+                                self.cv.notify_all();
+                                break;
+                            }
+                            let (ng, _) = self.cv.wait_timeout(g, (deadline - now).min(Duration::from_millis(200))).unwrap_or_else(|e| e.into_inner());
+                            g = ng;
+                        }
+                    } else if site == g.exit_site {
+                        g.exited += 1;
+                        if g.exited >= g.threads {
+                            // all workers of this round (chunk) are gone: re-arm for the next round
+                            g.exited = 0;
+                            g.rounds_completed += 1;
+                            g.workers.clear();
+                        } else if g.parked.len() + g.exited >= g.threads && g.released.is_none() {
+                            Controller::decide(&mut g);
+                            self.cv.notify_all();
+                        }
+                    }
+                }
+            }
+        }
+        if sleep_us > 0 {
+            std::thread::sleep(Duration::from_micros(sleep_us));
+        }
+    }
+}
+
+/// Next DFS prefix after a completed run, or None when the tree is exhausted.
+pub fn next_prefix(choices: &[(u32, u32, u64)]) -> Option<Vec<u32>> {
+    let mut i = choices.len();
+    while i > 0 {
+        i -= 1;
+        let (n, c, _) = choices[i];
+        if c + 1 < n {
+            let mut p: Vec<u32> = choices[..i].iter().map(|x| x.1).collect();
+            p.push(c + 1);
+            return Some(p);
+        }
+    }
+    None
+}
+
+/// Toy worker loop with the same shape as the repository's, for the controller self-check
+/// (DESIGN.md §7.3): `buggy` publishes at a shared completion counter instead of the ordinal.
+pub fn toy_run(threads: usize, records: usize, buggy: bool, ctl: &Arc<Controller>) -> Vec<u64> {
+    use std::sync::atomic::{AtomicUsize, Ordering};
+    let next = Mutex::new(0usize);
+    let done = AtomicUsize::new(0);
+    let out: Vec<Mutex<u64>> = (0..records).map(|_| Mutex::new(NONE)).collect();
+    std::thread::scope(|s| {
+        for _ in 0..threads {
+            s.spawn(|| {
+                loop {
+                    let rec = {
+                        let mut g = next.lock().unwrap();
+                        if *g < records {
+                            *g += 1;
+                            Some(*g - 1)
+                        } else {
+                            None
+                        }
+                    };
+                    ctl.on_event("toy.took", [rec.map_or(NONE, |r| r as u64), 0, 0, 0]);
+                    match rec {
+                        Some(r) => {
+                            let slot = if buggy { done.fetch_add(1, Ordering::SeqCst) } else { r };
+                            *out[slot].lock().unwrap() = r as u64;
+                        }
+                        None => break,
+                    }
+                }
+                ctl.on_event("toy.exit", [0; 4]);
+            });
+        }
+    });
+    out.iter().map(|m| *m.lock().unwrap()).collect()
+}
